@@ -1,7 +1,550 @@
-//! C12 — not built yet.
-use vcore::Ctx;
+//! C12 — no client input can crash, overflow the stack or hang the server.
+//! Cases run in a CHILD process of this binary, each on a thread with a 2 MiB stack (tokio's worker default); panics
+//! are caught in the child, aborts (stack overflow) are seen by the parent through the child's exit status and a
+//! marker file naming the case that was running.
+use async_graphql::http::{MultipartOptions, WebSocket, WsMessage};
+use async_graphql::*;
+use futures_util::stream::{self, StreamExt};
+use std::io::Write;
+use vcore::{Case, Ctx, Src};
 
-pub fn run(_ctx: &mut Ctx) {
-    eprintln!("C12: check not built yet");
-    std::process::exit(2);
+#[derive(Enum, Copy, Clone, Eq, PartialEq)]
+enum Kind {
+    A,
+    B,
+}
+#[derive(InputObject)]
+struct Deep {
+    n: Option<i32>,
+    s: Option<String>,
+    k: Option<Kind>,
+    id: Option<ID>,
+    f: Option<f64>,
+    child: Option<Box<Deep>>,
+    list: Option<Vec<Deep>>,
+    json: Option<Json<serde_json::Value>>,
+    file: Option<Upload>,
+}
+#[derive(OneofObject)]
+enum Either {
+    N(i32),
+    S(String),
+    D(Deep),
+}
+struct Query;
+#[Object]
+impl Query {
+    async fn int(&self, x: Option<i32>, y: Option<i64>, z: Option<u8>) -> i32 {
+        x.unwrap_or(0).wrapping_add(y.unwrap_or(0) as i32).wrapping_add(z.unwrap_or(0) as i32)
+    }
+    async fn float(&self, x: Option<f64>, y: Option<f32>) -> f64 {
+        x.unwrap_or(0.0) + y.unwrap_or(0.0) as f64
+    }
+    async fn text(&self, x: Option<String>, id: Option<ID>, c: Option<char>, b: Option<bool>) -> String {
+        format!("{:?}{:?}{:?}{:?}", x, id.map(|i| i.0), c, b)
+    }
+    async fn kind(&self, x: Option<Kind>, xs: Option<Vec<Option<Kind>>>) -> i32 {
+        x.map(|_| 1).unwrap_or(0) + xs.map(|v| v.len() as i32).unwrap_or(0)
+    }
+    async fn deep(&self, x: Option<Deep>, xs: Option<Vec<Vec<Option<Deep>>>>) -> i32 {
+        x.map(|_| 1).unwrap_or(0) + xs.map(|v| v.len() as i32).unwrap_or(0)
+    }
+    async fn either(&self, x: Option<Either>) -> bool {
+        x.is_some()
+    }
+    async fn json(&self, x: Option<Json<serde_json::Value>>) -> Json<serde_json::Value> {
+        x.unwrap_or(Json(serde_json::Value::Null))
+    }
+    async fn me(&self) -> Query {
+        Query
+    }
+    async fn list(&self) -> Vec<Query> {
+        vec![Query, Query]
+    }
+}
+struct Mutation;
+#[Object]
+impl Mutation {
+    async fn upload(&self, ctx: &Context<'_>, file: Option<Upload>, files: Option<Vec<Upload>>, d: Option<Deep>) -> i32 {
+        let mut n = 0;
+        if let Some(f) = file {
+            n += f.value(ctx).map(|v| v.filename.len() as i32).unwrap_or(-1);
+        }
+        for f in files.unwrap_or_default() {
+            n += f.value(ctx).map(|v| v.filename.len() as i32).unwrap_or(-1);
+        }
+        fn walk(ctx: &Context<'_>, d: &Deep) -> i32 {
+            let mut n = 0;
+            if let Some(f) = &d.file {
+                n += f.value(ctx).map(|v| v.filename.len() as i32).unwrap_or(-1);
+            }
+            if let Some(c) = &d.child {
+                n += walk(ctx, c);
+            }
+            for c in d.list.iter().flatten() {
+                n += walk(ctx, c);
+            }
+            n
+        }
+        if let Some(d) = d {
+            n += walk(ctx, &d);
+        }
+        n
+    }
+}
+struct Sub;
+#[Subscription]
+impl Sub {
+    async fn ticks(&self, n: Option<i32>) -> impl futures_util::Stream<Item = i32> {
+        stream::iter(0..n.unwrap_or(2).clamp(0, 3))
+    }
+}
+type U = Schema<Query, Mutation, Sub>;
+
+// ---------------------------------------------------------------- input generators
+const QUERIES: [&str; 14] = [
+    "{ int(x: 1, y: 2, z: 3) float(x: 1.5) }",
+    "query Q($a: Int = 3, $d: Deep, $k: [Kind]) { int(x: $a) deep(x: $d) kind(xs: $k) me { me { list { int } } } }",
+    "mutation M($f: Upload, $fs: [Upload!], $d: Deep) { upload(file: $f, files: $fs, d: $d) }",
+    "subscription S($n: Int) { ticks(n: $n) }",
+    "{ text(x: \"a\\u00e9\\n\", id: 5, c: \"x\", b: true) json(x: {a: [1, 2.5, \"s\", null, {b: true}]}) }",
+    "query A { ...F } fragment F on Query { me { ...G } } fragment G on Query { int ... on Query { float } }",
+    "{ either(x: {n: 1}) e2: either(x: {d: {child: {child: {list: [{n: 1}]}}}}) }",
+    "{ __schema { types { name fields { name args { name defaultValue } } } } __type(name: \"Deep\") { inputFields { name } } }",
+    "query($v: [[Deep]]) { deep(xs: $v) @skip(if: false) @include(if: true) }",
+    "{ kind(x: A, xs: [A, B, null]) }",
+    "query Q { a: int b: int c: int } query R { float }",
+    "{ int(x: 2147483647, y: 9223372036854775807, z: 255) float(x: 1e308, y: 3.4e38) }",
+    "{ list { list { list { list { int } } } } }",
+    "{ deep(x: {json: {a: {b: {c: [[[1]]]}}}, file: \"#__graphql_file__:0\"}) }",
+];
+const SNIPPETS: [&str; 44] = [
+    "{", "}", "[", "]", "(", ")", "$", "@", ":", "!", "...", "\"", "\"\"\"", "\\", "\\u", "\\uD800", "#", ",", "\n", "\r", "\u{feff}", "0", "-", "1e999", "99999999999999999999999", "1.", ".5", "null", "true",
+    "on", "query", "fragment", "mutation", "#__graphql_file__:", "#__graphql_file__:x", "#__graphql_file__:99999999999999999999", "#__graphql_file__:7", "__typename", "__schema", "\u{0}", "\u{7f}", "é", "😀", "@skip(if: $x)",
+];
+
+fn mutate_text(s: &mut dyn Src, base: &str) -> String {
+    let mut cs: Vec<char> = base.chars().collect();
+    for _ in 0..s.choose(4) {
+        let len = cs.len();
+        let at = s.choose(len + 1);
+        match s.choose(6) {
+            0 if len > 0 => {
+                cs.remove(at.min(len - 1));
+            }
+            1 | 2 => {
+                for (k, c) in SNIPPETS[s.choose(SNIPPETS.len())].chars().enumerate() {
+                    cs.insert((at + k).min(cs.len()), c);
+                }
+            }
+            3 if len > 1 => {
+                let i = at.min(len - 2);
+                cs.swap(i, i + 1);
+            }
+            4 if len > 0 => {
+                let i = at.min(len - 1);
+                let l = 1 + s.choose(8.min(len - i));
+                let span: Vec<char> = cs[i..i + l].to_vec();
+                let reps = 1 + s.choose(4);
+                for _ in 0..reps {
+                    for (k, c) in span.iter().enumerate() {
+                        cs.insert(i + k, *c);
+                    }
+                }
+            }
+            _ if len > 0 => {
+                let i = at.min(len - 1);
+                let l = 1 + s.choose(6.min(len - i));
+                cs.drain(i..i + l);
+            }
+            _ => {}
+        }
+    }
+    cs.into_iter().collect()
+}
+
+fn gen_json(s: &mut dyn Src, depth: usize) -> serde_json::Value {
+    use serde_json::Value as J;
+    match s.choose(if depth == 0 { 7 } else { 10 }) {
+        0 => J::Null,
+        1 => J::Bool(s.bool()),
+        2 => J::from(vcore::gens::gen_i64(s)),
+        3 => J::from(s.u64()),
+        4 => serde_json::Number::from_f64(vcore::gens::gen_f64_finite(s)).map(J::Number).unwrap_or(J::Null),
+        5 => J::String(vcore::gens::gen_string(s, 6)),
+        6 => J::String(SNIPPETS[s.choose(SNIPPETS.len())].to_string()),
+        7 => J::Array((0..s.choose(4)).map(|_| gen_json(s, depth - 1)).collect()),
+        _ => {
+            let mut m = serde_json::Map::new();
+            for _ in 0..s.choose(4) {
+                let k = ["n", "s", "k", "id", "f", "child", "list", "json", "file", "d", "a", "", "__proto__", "é"][s.choose(14)];
+                m.insert(k.to_string(), gen_json(s, depth - 1));
+            }
+            J::Object(m)
+        }
+    }
+}
+
+fn nested_json(kind: usize, n: usize) -> String {
+    match kind {
+        0 => format!("{}{}", "[".repeat(n), "]".repeat(n)),
+        _ => format!("{}1{}", "{\"child\":".repeat(n), "}".repeat(n)),
+    }
+}
+
+/// adversarial families, parameterised by size
+fn family(i: usize, n: usize) -> String {
+    match i {
+        0 => format!("{}int{}", "{me".repeat(n), "}".repeat(n)),
+        1 => format!("{{json(x:{}{})}}", "[".repeat(n), "]".repeat(n)),
+        2 => format!("{{json(x:{}1{})}}", "{k:".repeat(n), "}".repeat(n)),
+        3 => format!("query($a:{}Int{}){{int}}", "[".repeat(n), "]".repeat(n)),
+        4 => format!("{{int{}}}", " @skip(if:false)".repeat(n)),
+        5 => format!("{{{}}}", "int ".repeat(n)),
+        6 => format!("{{text(x:\"{}\")}}", "a".repeat(n)),
+        7 => format!("{{{}}}", "a".repeat(n)),
+        8 => format!("#{}\n{{int}}", "c".repeat(n)),
+        9 => format!("{{float(x:1e{})}}", "9".repeat(n.min(5000))),
+        10 => format!("{{int(x:{})}}", "9".repeat(n.min(5000))),
+        11 => format!("{{int}}{}", "...".repeat(n)),
+        12 => format!("{{...F}} fragment F on Query{{{}...F}}", "me{".repeat(n.min(60)) + &"}".repeat(0)),
+        13 => format!("{{ {} }}", "... on Query { ".repeat(n) + "int" + &" }".repeat(n)),
+        14 => format!("{{text(x:\"{}\")}}", "\\u0041".repeat(n)),
+        15 => format!("{{text(x:\"\"\"{}\"\"\")}}", "\n  a".repeat(n)),
+        16 => format!("{{deep(x:{}{{n:1}}{})}}", "{child:".repeat(n), "}".repeat(n)),
+        17 => format!("{{deep(xs:{}{})}}", "[".repeat(n), "]".repeat(n)),
+        18 => "(".repeat(n),
+        19 => format!("{{int(x:{}1)}}", "-".repeat(n)),
+        20 => format!("query Q{}{{int}}", "($a:Int)".repeat(n.min(3))),
+        _ => format!("{}", "\"".repeat(n)),
+    }
+}
+const FAMILIES: usize = 22;
+
+// ---------------------------------------------------------------- executing one input (in the child, on a small stack)
+fn on_small_stack<F: FnOnce() -> Result<String, String> + Send + 'static>(f: F) -> Result<String, String> {
+    let h = std::thread::Builder::new().stack_size(2 << 20).spawn(move || vcore::drive::catch(f)).map_err(|e| e.to_string())?;
+    match h.join() {
+        Ok(Ok(r)) => r,
+        Ok(Err(p)) => Err(format!("panic: {}", p)),
+        Err(_) => Err("thread panicked".into()),
+    }
+}
+
+fn work_bound(size: usize) -> u64 {
+    10_000 + 64 * (size as u64) * (size as u64)
+}
+
+fn run_request(schema: &U, req: Request, size: usize) -> Result<String, String> {
+    async_graphql::verif_hooks::WORK.store(0, std::sync::atomic::Ordering::Relaxed);
+    let schema = schema.clone();
+    on_small_stack(move || {
+        let resp = vcore::det::block_on(schema.execute(req));
+        let w = async_graphql::verif_hooks::WORK.load(std::sync::atomic::Ordering::Relaxed);
+        if w > work_bound(size) {
+            return Err(format!("checking work {} exceeds the generous bound for {} bytes (no progress guarantee)", w, size));
+        }
+        Ok(if resp.errors.is_empty() { "ok".into() } else { "errors".into() })
+    })
+}
+
+fn marker_path() -> std::path::PathBuf {
+    std::path::PathBuf::from(std::env::var("VERIF_C12_MARKER").unwrap_or_else(|_| "/dev/shm/verif-c12-marker".into()))
+}
+fn mark(stream: &str, rendered: &str) {
+    if let Ok(mut f) = std::fs::File::create(marker_path()) {
+        let _ = f.write_all(format!("{}\n{}", stream, rendered).as_bytes());
+    }
+}
+
+fn outcome(stream: &str, rendered: String, r: Result<String, String>, passed_first_layer: bool) -> Case {
+    match r {
+        Ok(cls) => Case::pass(rendered).nontrivial(passed_first_layer).class(format!("{}:{}", stream, cls)).class_if(passed_first_layer, "passes-first-decoding-layer"),
+        Err(e) => Case::fail(rendered, e),
+    }
+}
+
+fn multipart_body(s: &mut dyn Src, boundary: &str) -> Vec<u8> {
+    let mut b = Vec::new();
+    let ops = if s.bool() {
+        serde_json::json!({"query": QUERIES[2], "variables": {"f": null, "fs": [null, null], "d": {"file": null, "child": {"file": null}}}}).to_string()
+    } else {
+        gen_json(s, 3).to_string()
+    };
+    let map = match s.choose(4) {
+        0 => serde_json::json!({"0": ["variables.f"], "1": ["variables.fs.0", "variables.d.child.file"]}).to_string(),
+        1 => serde_json::json!({"0": ["variables.nope", "variables.fs.9", "0.variables.f", "variables.f.x.y"]}).to_string(),
+        2 => gen_json(s, 3).to_string(),
+        _ => serde_json::json!({"0": ["variables.f", "variables.f"], "9": ["variables.f"]}).to_string(),
+    };
+    let mut parts: Vec<(String, Option<String>, Vec<u8>)> = vec![("operations".into(), None, ops.into_bytes()), ("map".into(), None, map.into_bytes())];
+    for i in 0..s.choose(4) {
+        parts.push((i.to_string(), Some(vcore::gens::gen_string(s, 5)), vcore::gens::gen_string(s, 20).into_bytes()));
+    }
+    if s.chance(1, 3) {
+        let i = s.choose(parts.len());
+        let j = s.choose(parts.len());
+        parts.swap(i, j);
+    }
+    for (name, file, content) in parts {
+        b.extend_from_slice(format!("--{}\r\n", boundary).as_bytes());
+        match file {
+            Some(f) => b.extend_from_slice(format!("Content-Disposition: form-data; name=\"{}\"; filename=\"{}\"\r\nContent-Type: text/plain\r\n\r\n", name, f.replace(['"', '\r', '\n'], "_")).as_bytes()),
+            None => b.extend_from_slice(format!("Content-Disposition: form-data; name=\"{}\"\r\n\r\n", name).as_bytes()),
+        }
+        b.extend_from_slice(&content);
+        b.extend_from_slice(b"\r\n");
+    }
+    b.extend_from_slice(format!("--{}--\r\n", boundary).as_bytes());
+    // byte-level damage
+    for _ in 0..s.choose(3) {
+        if b.is_empty() {
+            break;
+        }
+        let at = s.choose(b.len());
+        match s.choose(3) {
+            0 => {
+                b.truncate(at);
+            }
+            1 => b[at] = s.choose(256) as u8,
+            _ => {
+                b.insert(at, b"-\r\n\";= "[s.choose(7)]);
+            }
+        }
+    }
+    b
+}
+
+fn ws_frames(s: &mut dyn Src) -> Vec<Vec<u8>> {
+    let n = s.choose(8);
+    (0..n)
+        .map(|_| {
+            let t = ["connection_init", "start", "subscribe", "stop", "complete", "ping", "pong", "connection_terminate", "nope", ""][s.choose(10)];
+            let base = match s.choose(5) {
+                0 => serde_json::json!({"type": t, "id": "1", "payload": {"query": QUERIES[s.choose(QUERIES.len())], "variables": gen_json(s, 2)}}).to_string(),
+                1 => serde_json::json!({"type": t, "payload": gen_json(s, 3)}).to_string(),
+                2 => serde_json::json!({"type": t, "id": gen_json(s, 1), "payload": {"query": mutate_text(s, QUERIES[3])}}).to_string(),
+                3 => gen_json(s, 3).to_string(),
+                _ => vcore::gens::gen_string(s, 12),
+            };
+            let mut b = mutate_text(s, &base).into_bytes();
+            if s.chance(1, 6) && !b.is_empty() {
+                let at = s.choose(b.len());
+                b[at] = 0xff;
+            }
+            b
+        })
+        .collect()
+}
+
+/// all streams; runs inside the child process
+pub fn run_child(ctx: &mut Ctx) {
+    ctx.rule = "schema with every built-in input type (Int widths, Float, String, char, Boolean, ID, enum, recursive input object, oneOf, Json, Upload, lists) plus subscriptions; inputs: grammar-aware and \
+                character-level mutations of query text, adversarial size families (deep nesting of selection sets / lists / objects / types / inline fragments, long tokens, huge numbers, escapes, cycles), \
+                random and forged variables (upload markers), operation names, extensions, GET query strings, JSON bodies and batches, multipart bodies with byte damage, websocket frames. Each case runs on a \
+                2 MiB-stack thread in a child process: it must return (response or error), not panic, not abort, and stay below a generous checking-work bound. Non-trivial = the input passes the first decoding layer \
+                (parses as a document / JSON / multipart / websocket message); distinct by input".into();
+    ctx.assume("stack budget 2 MiB per case (tokio worker default); nesting in JSON is bounded by serde_json's own recursion limit (client JSON never reaches the library deeper than 128)");
+    ctx.assume("'stops making progress' is decided by the deterministic work counter (verif-hooks) against 10000 + 64*size^2 and by the parent's watchdog (exit 2, never a violation); the fragment fan-out family is C11's subject and not generated here");
+    let schema: U = Schema::build(Query, Mutation, Sub).finish();
+    let n = ctx.tier.pick(6_000, 500_000);
+
+    // adversarial families at growing sizes
+    let sizes: Vec<usize> = ctx.tier.pick(vec![8, 63, 64, 65, 66, 200, 2_000, 20_000], vec![8, 63, 64, 65, 66, 200, 2_000, 20_000, 200_000, 1_000_000]);
+    for fam in 0..FAMILIES {
+        for &sz in &sizes {
+            let text = family(fam, sz);
+            let rendered = format!("family {} size {}: {}", fam, sz, vcore::drive::truncate(&text, 120));
+            mark("families", &rendered);
+            let parses = async_graphql::parser::parse_query(&text).is_ok() || text.len() < 100_000 && false;
+            let r = run_request(&schema, Request::new(text.clone()), text.len());
+            let c = outcome("families", rendered, r, parses).class(format!("family-{}", fam));
+            if ctx.check_case("families", c, serde_json::json!({"family": fam, "size": sz})) {
+                return;
+            }
+        }
+    }
+    // nested JSON variables at the parser's depth limit
+    for kind in 0..2 {
+        for depth in [10usize, 126, 127, 128, 129, 1_000, 100_000] {
+            let body = format!("{{\"query\":\"query($d: Deep, $v: [[Deep]]) {{ deep(x: $d, xs: $v) }}\",\"variables\":{{\"{}\":{}}}}}", if kind == 0 { "v" } else { "d" }, nested_json(kind, depth));
+            let rendered = format!("json body with variables nested {} deep (kind {})", depth, kind);
+            mark("json-depth", &rendered);
+            let schema2 = schema.clone();
+            let size = body.len();
+            let r = on_small_stack(move || {
+                let req = vcore::det::block_on(async_graphql::http::receive_json(futures_util::io::Cursor::new(body.into_bytes())));
+                match req {
+                    Err(_) => Ok("rejected".into()),
+                    Ok(req) => {
+                        let _ = vcore::det::block_on(schema2.execute(req));
+                        Ok("decoded".to_string())
+                    }
+                }
+            });
+            let _ = size;
+            let decoded = matches!(&r, Ok(c) if c == "decoded");
+            if ctx.check_case("json-depth", outcome("json-depth", rendered, r, decoded), serde_json::json!({"depth": depth})) {
+                return;
+            }
+        }
+    }
+
+    ctx.stream("query-text", n, 120, |s| {
+        let base = QUERIES[s.choose(QUERIES.len())];
+        let text = mutate_text(s, base);
+        let vars = if s.bool() { gen_json(s, 4) } else { serde_json::json!({"f": SNIPPETS[33 + s.choose(4)], "fs": [SNIPPETS[33 + s.choose(4)]], "d": {"file": SNIPPETS[33 + s.choose(4)], "list": [{"file": "#__graphql_file__:3"}]}, "a": gen_json(s, 1), "n": gen_json(s, 1)}) };
+        let mut req = Request::new(text.clone()).variables(Variables::from_json(vars.clone()));
+        if s.chance(1, 3) {
+            req = req.operation_name(["Q", "M", "S", "A", "R", "", "é"][s.choose(7)]);
+        }
+        if s.chance(1, 4) {
+            req.extensions.insert("persistedQuery".into(), Value::from_json(gen_json(s, 2)).unwrap_or_default());
+        }
+        let rendered = format!("query: {}\nvariables: {}", text, vars);
+        mark("query-text", &rendered);
+        let parses = async_graphql::parser::parse_query(&text).is_ok();
+        outcome("query-text", rendered, run_request(&schema, req, text.len()), parses)
+    });
+
+    ctx.stream("batch-and-get", n / 3, 160, |s| {
+        let k = s.choose(3);
+        let rendered;
+        let r;
+        let mut first_layer = false;
+        match k {
+            0 => {
+                // GET query string
+                let qi = s.choose(QUERIES.len());
+                let q = mutate_text(s, QUERIES[qi]);
+                let qs = format!("query={}&operationName={}&variables={}&extensions={}", pct(&q, s), pct(&vcore::gens::gen_string(s, 4), s), pct(&gen_json(s, 3).to_string(), s), pct(&gen_json(s, 2).to_string(), s));
+                let qs = mutate_text(s, &qs);
+                rendered = format!("GET ?{}", qs);
+                mark("batch-and-get", &rendered);
+                let schema2 = schema.clone();
+                let qs2 = qs.clone();
+                let res = on_small_stack(move || match async_graphql::http::parse_query_string(&qs2) {
+                    Err(_) => Ok("rejected".into()),
+                    Ok(req) => {
+                        let _ = vcore::det::block_on(schema2.execute(req));
+                        Ok("decoded".to_string())
+                    }
+                });
+                first_layer = matches!(&res, Ok(c) if c == "decoded");
+                r = res;
+            }
+            1 => {
+                // JSON body / batch with damage
+                let mut items = vec![];
+                for _ in 0..1 + s.choose(3) {
+                    let qi = s.choose(QUERIES.len());
+                    let q = mutate_text(s, QUERIES[qi]);
+                    let (a, b, c) = (gen_json(s, 0), gen_json(s, 3), gen_json(s, 2));
+                    items.push(serde_json::json!({"query": q, "operationName": a, "variables": b, "extensions": c}));
+                }
+                let body = if s.bool() { serde_json::Value::Array(items).to_string() } else { items[0].to_string() };
+                let body = mutate_text(s, &body);
+                rendered = format!("POST json {}", body);
+                mark("batch-and-get", &rendered);
+                let schema2 = schema.clone();
+                let b2 = body.clone();
+                let res = on_small_stack(move || match vcore::det::block_on(async_graphql::http::receive_batch_body(Some("application/json"), futures_util::io::Cursor::new(b2.into_bytes()), MultipartOptions::default())) {
+                    Err(_) => Ok("rejected".into()),
+                    Ok(req) => {
+                        let _ = vcore::det::block_on(schema2.execute_batch(req));
+                        Ok("decoded".to_string())
+                    }
+                });
+                first_layer = matches!(&res, Ok(c) if c == "decoded");
+                r = res;
+            }
+            _ => {
+                let boundary = ["X", "--X", "a b", "0123456789012345678901234567890123456789012345678901234567890123456789"][s.choose(4)];
+                let body = multipart_body(s, boundary);
+                let ct = if s.chance(1, 8) { "multipart/form-data".to_string() } else { format!("multipart/form-data; boundary={}", boundary) };
+                rendered = format!("POST {} {}", ct, String::from_utf8_lossy(&body));
+                mark("batch-and-get", &rendered);
+                let schema2 = schema.clone();
+                let opts = MultipartOptions::default().max_file_size(if s.bool() { 8 } else { 1 << 20 }).max_num_files(1 + s.choose(3));
+                let res = on_small_stack(move || match vcore::det::block_on(async_graphql::http::receive_batch_body(Some(ct), futures_util::io::Cursor::new(body), opts)) {
+                    Err(_) => Ok("rejected".into()),
+                    Ok(req) => {
+                        let _ = vcore::det::block_on(schema2.execute_batch(req));
+                        Ok("decoded".to_string())
+                    }
+                });
+                first_layer = matches!(&res, Ok(c) if c == "decoded");
+                r = res;
+            }
+        }
+        outcome("transport", rendered, r, first_layer).class(["get", "json", "multipart"][k])
+    });
+
+    ctx.stream("websocket", n / 3, 200, |s| {
+        let frames = ws_frames(s);
+        let proto = if s.bool() { async_graphql::http::WebSocketProtocols::GraphQLWS } else { async_graphql::http::WebSocketProtocols::SubscriptionsTransportWS };
+        let rendered = format!("{:?} frames: {:?}", proto, frames.iter().map(|f| String::from_utf8_lossy(f).to_string()).collect::<Vec<_>>());
+        mark("websocket", &rendered);
+        let schema2 = schema.clone();
+        let r = on_small_stack(move || {
+            let ws = WebSocket::new(schema2, stream::iter(frames), proto);
+            let out: Vec<WsMessage> = vcore::det::block_on(ws.take(64).collect::<Vec<_>>());
+            Ok(if out.iter().any(|m| matches!(m, WsMessage::Text(_))) { "answered".into() } else { "closed-or-silent".into() })
+        });
+        let fl = matches!(&r, Ok(c) if c == "answered");
+        outcome("websocket", rendered, r, fl)
+    });
+}
+
+fn pct(t: &str, s: &mut dyn Src) -> String {
+    let mut out = String::new();
+    for b in t.bytes() {
+        if b.is_ascii_alphanumeric() && !s.chance(1, 10) {
+            out.push(b as char);
+        } else {
+            out.push_str(&format!("%{:02X}", b));
+        }
+    }
+    out
+}
+
+/// parent: run the child, relay its verdict, turn an abort into a violation naming the case from the marker file
+pub fn run(ctx: &mut Ctx) {
+    let marker = format!("/dev/shm/verif-c12-marker-{}", std::process::id());
+    std::env::set_var("VERIF_C12_MARKER", &marker);
+    let tier = ctx.tier.name().to_string();
+    let mut args = vec![tier];
+    if let Some(r) = &ctx.replay {
+        args.push("--replay".into());
+        args.push(r.display().to_string());
+    }
+    let timeout = std::time::Duration::from_secs(ctx.tier.pick(900, 7200));
+    let out = match vcore::child::run_child("c12", &args, b"", timeout) {
+        Ok(o) => o,
+        Err(e) => {
+            println!("INCONCLUSIVE: cannot start child: {}", e);
+            std::process::exit(2);
+        }
+    };
+    print!("{}", String::from_utf8_lossy(&out.stdout));
+    let last = std::fs::read_to_string(&marker).unwrap_or_default();
+    let _ = std::fs::remove_file(&marker);
+    if out.timed_out {
+        println!("INCONCLUSIVE: C12 child exceeded the watchdog; last case: {}", vcore::drive::truncate(&last, 300));
+        std::process::exit(2);
+    }
+    match (out.code, out.signal) {
+        (Some(c), _) => std::process::exit(c),
+        (None, sig) => {
+            // the child was killed: stack overflow / abort while running the marked case
+            let mut lines = last.splitn(2, '\n');
+            let stream = lines.next().unwrap_or("?").to_string();
+            let case = lines.next().unwrap_or("").to_string();
+            ctx.rule = "see child".into();
+            let c = Case::fail(case, format!("the process was killed by signal {:?} while handling this input (stack overflow / abort); stderr: {}", sig, vcore::drive::truncate(&String::from_utf8_lossy(&out.stderr), 400)));
+            ctx.check_case(&format!("{}-abort", stream), c.clone(), serde_json::json!({"signal": sig}));
+            // evidence needs at least two distinct non-trivial cases to be well-formed
+            ctx.check_case("abort-marker", Case::pass("child aborted; see violation").nontrivial(true), serde_json::Value::Null);
+        }
+    }
 }
